@@ -123,7 +123,7 @@ def body_headerset(I, X, ops=("add", "remove")):
 
 
 # -------------------------------------------------------------------------- Headers
-H_OPS = ["add", "set", "setitem", "remove", "pop", "delitem", "setdefault", "extend", "setlist", "popitem", "clear"]
+H_OPS = ["add", "set", "setitem", "remove", "pop", "pop-index", "delitem", "setdefault", "extend", "setlist", "popitem", "clear"]
 
 
 def body_headers(I, X, ops=("add", "set")):
@@ -150,6 +150,10 @@ def body_headers(I, X, ops=("add", "set")):
                 I.call(h.remove, (k,))
             elif op == "pop":
                 ret = I.call(h.pop, (k,))
+            elif op == "pop-index":
+                # positional access in the ordered pair list (0 is an index, not "no argument")
+                pidx = X.cint(f"idx{j}", 0, 2)
+                ret = I.call(h.pop, (pidx,))
             elif op == "delitem":
                 I.call(h.__delitem__, (k,))
             elif op == "setdefault":
@@ -214,6 +218,12 @@ def body_headers(I, X, ops=("add", "set")):
                 model = model[:-1]
             else:
                 mexc = "KeyError"
+        elif op == "pop-index":
+            if pidx < len(model):
+                mret = model[pidx]
+                model = model[:pidx] + model[pidx + 1:]
+            else:
+                mexc = "IndexError"
         elif op == "clear":
             model = []
         items = [(a, b) for a, b in I.call(h.__iter__, ())]
@@ -226,7 +236,7 @@ def body_headers(I, X, ops=("add", "set")):
         ok = pand(ok, exc == mexc)
         if op in ("pop", "setdefault") and mexc is None:
             ok = pand(ok, ret == mret)
-        if op == "popitem" and mexc is None:
+        if op in ("popitem", "pop-index") and mexc is None:
             ok = pand(ok, peq(ret[0], mret[0]), ret[1] == mret[1])
         ok = pand(ok, len(items) == len(model), I.call(h.__len__, ()) == len(model))
         if len(items) == len(model):
